@@ -3,7 +3,12 @@
 package extractor
 
 import (
+	"sort"
+	"strings"
+
 	"github.com/markusmobius/go-domdistiller/internal/converter"
+	"github.com/markusmobius/go-domdistiller/internal/domutil"
+	"github.com/markusmobius/go-domdistiller/internal/filter/heuristic"
 	"github.com/markusmobius/go-domdistiller/internal/label"
 	"github.com/markusmobius/go-domdistiller/internal/stringutil"
 	"github.com/markusmobius/go-domdistiller/internal/webdoc"
@@ -64,6 +69,144 @@ func (ce *ContentExtractor) VerifBlocks(skipUnlikely bool) VerifBlocksData {
 	for _, tb := range td.TextBlocks {
 		d.Final = append(d.Final, VerifBlock{Members: members(tb), IsContent: tb.IsContent(), Title: tb.HasLabel(label.Title)})
 	}
+	td.ApplyToModel()
+	for _, t := range texts {
+		d.Flags = append(d.Flags, t.IsContent())
+		d.Titles = append(d.Titles, t.HasLabel(label.Title))
+	}
+	return d
+}
+
+// VerifTraceBlock is the state of one text block at a stage boundary of the article extractor.
+type VerifTraceBlock struct {
+	Members   []int // Text elements, by position among the Text elements of the document
+	NumWords  int
+	NumAnchor int
+	TagLevel  int
+	OffStart  int
+	OffEnd    int
+	Labels    []string // sorted
+	IsContent bool
+}
+
+// VerifBlockAtoms: what the filters read from the DOM for an initial block (node identity as
+// small integers, 0 = nil).
+type VerifBlockAtoms struct {
+	RepParent int    // parent of the canonical representative (SimilarSiblingContent)
+	RepKind   string // node type and, for elements, tag name of the representative
+	GpFirst   int    // parent element of the parent element of the first non-blank text node
+	GpLast    int    // same for what KeepLargestBlock takes as the last one
+}
+
+// VerifSnapshot is the block list when the article extractor logs a stage.
+type VerifSnapshot struct {
+	Header  string
+	Changed bool
+	Blocks  []VerifTraceBlock
+}
+
+// VerifFilterTraceData: one pass of processDocument with a snapshot after every logged stage.
+type VerifFilterTraceData struct {
+	Atoms     []VerifBlockAtoms
+	Stages    []VerifSnapshot
+	WordCount int
+	Flags     []bool // IsContent of every Text element after ApplyToModel
+	Titles    []bool
+	NumWords  []int // NumWords of every Text element
+}
+
+type verifSnapLogger struct{ snap func(msg string) }
+
+func (l verifSnapLogger) IsLogExtraction() bool { return true }
+func (l verifSnapLogger) IsLogVisibility() bool { return false }
+func (l verifSnapLogger) IsLogPagination() bool { return false }
+func (l verifSnapLogger) IsLogTiming() bool     { return false }
+func (l verifSnapLogger) PrintExtractionInfo(args ...interface{}) {
+	if len(args) == 1 {
+		if s, ok := args[0].(string); ok {
+			l.snap(s)
+		}
+	}
+}
+func (l verifSnapLogger) PrintVisibilityInfo(args ...interface{}) {}
+func (l verifSnapLogger) PrintPaginationInfo(args ...interface{}) {}
+func (l verifSnapLogger) PrintTimingInfo(args ...interface{})     {}
+
+// VerifFilterTrace runs createWebDocumentInfoFromPage and the steps of processDocument; the
+// article extractor gets a logger that records the block list every time a stage is logged.
+func (ce *ContentExtractor) VerifFilterTrace(skipUnlikely bool) VerifFilterTraceData {
+	flags := converter.Default
+	if skipUnlikely {
+		flags = converter.SkipUnlikelies
+	}
+	doc := ce.createWebDocumentInfoFromPage(flags)
+	index := map[*webdoc.Text]int{}
+	var texts []*webdoc.Text
+	var d VerifFilterTraceData
+	for _, e := range doc.Elements {
+		if t, ok := e.(*webdoc.Text); ok {
+			index[t] = len(texts)
+			texts = append(texts, t)
+			d.NumWords = append(d.NumWords, t.NumWords)
+		}
+	}
+	td := doc.CreateTextDocument()
+	nodeID := map[*html.Node]int{}
+	id := func(n *html.Node) int {
+		if n == nil {
+			return 0
+		}
+		if _, ok := nodeID[n]; !ok {
+			nodeID[n] = len(nodeID) + 1
+		}
+		return nodeID[n]
+	}
+	parentElem := func(n *html.Node) *html.Node {
+		if n == nil {
+			return nil
+		}
+		return domutil.GetParentElement(n)
+	}
+	if len(td.TextBlocks) >= 2 {
+		reps := heuristic.VerifCanonicalReps(td.TextBlocks)
+		for i, tb := range td.TextBlocks {
+			kind := "t" + string(rune('0'+int(reps[i].Type)))
+			if reps[i].Type == html.ElementNode {
+				kind = "e:" + domutil.NodeName(reps[i])
+			}
+			d.Atoms = append(d.Atoms, VerifBlockAtoms{
+				RepParent: id(reps[i].Parent),
+				RepKind:   kind,
+				GpFirst:   id(parentElem(parentElem(tb.FirstNonWhitespaceTextNode()))),
+				GpLast:    id(parentElem(parentElem(tb.LastNonWhitespaceTextNode()))),
+			})
+		}
+	} else {
+		for range td.TextBlocks {
+			d.Atoms = append(d.Atoms, VerifBlockAtoms{RepKind: "-"})
+		}
+	}
+	snapshot := func(msg string) {
+		s := VerifSnapshot{Changed: !strings.HasSuffix(msg, ": NO CHANGES")}
+		if k := strings.Index(msg, ":"); k >= 0 {
+			s.Header = msg[:k]
+		}
+		for _, tb := range td.TextBlocks {
+			b := VerifTraceBlock{NumWords: tb.NumWords, NumAnchor: tb.NumWordsInAnchor, TagLevel: tb.TagLevel,
+				OffStart: tb.OffsetBlocksStart(), OffEnd: tb.OffsetBlocksEnd(), IsContent: tb.IsContent(), Members: []int{}, Labels: []string{}}
+			for _, t := range tb.TextElements {
+				b.Members = append(b.Members, index[t])
+			}
+			for l := range tb.Labels {
+				b.Labels = append(b.Labels, l)
+			}
+			sort.Strings(b.Labels)
+			s.Blocks = append(s.Blocks, b)
+		}
+		d.Stages = append(d.Stages, s)
+	}
+	NewArticleExtractor(verifSnapLogger{snapshot}).Extract(td, ce.WordCounter, ce.candidateTitles)
+	d.WordCount = td.CountWordsInContent()
 	td.ApplyToModel()
 	for _, t := range texts {
 		d.Flags = append(d.Flags, t.IsContent())
